@@ -173,6 +173,8 @@ func (x *Exec) chanRecv(st *State, fr *Frame, ch Term, n ast.Node, k func(*State
 	s2.assume(tApp("Bool", "tprefix_"+tr, nxt, total))
 	s2.assume(tImp(tNot(okT), tEq(cur, total)))
 	s2.assume(tImp(x.chFlag(st, "drained", ch), tNot(okT)))
+	// whoever holds the close permission of an open channel cannot observe it closed
+	s2.assume(tImp(tAnd(x.chFlag(st, "own", ch), tNot(x.chFlag(st, "closed", ch))), okT))
 	x.chSetFlag(s2, "drained", ch, tOr(x.chFlag(st, "drained", ch), tNot(okT)))
 	s2.assume(tImp(tNot(okT), tEq(v, x.zeroOfSort(es, nil))))
 	k(s2, v, okT)
@@ -426,6 +428,18 @@ func (x *Exec) goStmt(st *State, fr *Frame, s *ast.GoStmt) {
 		}
 		x.oblige(st, "chan", "spawn:"+short+":share:"+nm, tAnd(x.chFlag(st, "own", c), tNot(x.chFlag(st, "closed", c))), s, "spawner gives a send share of an open channel it owns")
 		x.chSetInt(st, "shares", c, tApp("Int", "+", x.chInt(st, "shares", c), tInt(1)))
+	}
+	for _, nm := range splitList(sub.Opts["slot"]) {
+		c, ok := env.names[nm]
+		if !ok && env.lookup != nil {
+			c, ok = env.lookup(nm)
+		}
+		if !ok {
+			x.contractError(st, "slot:"+nm, fmt.Errorf("unknown channel %s", nm), s)
+			continue
+		}
+		x.oblige(st, "progress", "spawn:"+short+":slot:"+nm, tApp("Bool", ">=", x.chInt(st, "slots", c), tInt(1)), s, "spawner hands one guaranteed buffer slot to the worker")
+		x.chSetInt(st, "slots", c, tApp("Int", "-", x.chInt(st, "slots", c), tInt(1)))
 	}
 	if sub.Opts["worker"] != "" {
 		st.ghosts["spawned"] = tApp("Int", "+", x.ghostInt(st, "spawned"), tInt(1))
